@@ -774,6 +774,7 @@ type Explorer struct {
 	res  *Result
 	seen map[string]bool
 	stop bool
+	violAt time.Time
 }
 
 func Explore(p *Program, cfg *Config) *Result {
@@ -859,6 +860,15 @@ func (e *Explorer) worker() {
 		if !e.cfg.Deadline.IsZero() && time.Now().After(e.cfg.Deadline) && len(e.work) > 0 {
 			e.stop = true
 			e.res.Inconclusive = appendUniq(e.res.Inconclusive, fmt.Sprintf("deadline reached with %d prefixes unexplored", len(e.work)))
+		}
+		// a harness that has produced a counterexample is explored for another 20 s only (the run fails anyway)
+		if len(e.res.Violations) > 0 {
+			if e.violAt.IsZero() {
+				e.violAt = time.Now()
+			} else if time.Since(e.violAt) > 20*time.Second && len(e.work) > 0 && !e.stop {
+				e.stop = true
+				e.res.Inconclusive = appendUniq(e.res.Inconclusive, fmt.Sprintf("exploration cut short 20 s after the first counterexample (%d prefixes unexplored)", len(e.work)))
+			}
 		}
 		e.mu.Unlock()
 		e.cond.Broadcast()
